@@ -58,6 +58,9 @@ func evalC18(c *Ctx, grant string, other int, note string) {
 	a.Expires = int64(other)
 	a.Tags.Add("t" + fmt.Sprint(other))
 	a.Issuer = pubOf(kp) // HashID reads the issuer field; Encode will stamp the same value
+	if other%3 == 0 {
+		a.IssuerAccount = kr.acct[(ex+1)%3] // issued through a signing key on behalf of another account: not an input of the hash
+	}
 	h0, err0 := a.HashID()
 	wantBase := pubOf(kp) + "." + importer + "." + identityPrefix(grant)
 	implLine := "err"
@@ -102,6 +105,11 @@ func evalC18(c *Ctx, grant string, other int, note string) {
 	d.Name, d.Expires, d.NotBefore, d.Audience = "other", 99, 7, "aud"
 	d.Tags.Add("zzz")
 	d.ImportType = 3 - d.ImportType
+	if d.IssuerAccount == "" {
+		d.IssuerAccount = kr.acct[(ex+2)%3]
+	} else {
+		d.IssuerAccount = ""
+	}
 	if hx, _ := d.HashID(); hx != h0 {
 		c.Violate("hash-stability", "hash identity depends on a field other than issuer, subject and granted subject", rp)
 	}
